@@ -1,10 +1,17 @@
 // C16 — block execution is deterministic.
 //
-// (a) dynamic: a corpus of real blocks (governance / relayer / fee / signature flows over 5 validators) is executed on the
-//     real ledger (LedgerStoreImp.ExecuteBlock = the production executeBlock) under harness-owned map-iteration order
-//     (lib/maporder: GOROOT overlay of runtime.mapiterinit). For every block: baseline twice, then every 1-deviation
-//     (thorough: 2-deviation) of the iteration start at every map-iteration site with >= 2 entries; the write set, state-change
-//     digest, state root, cross-state root, cross hashes and events must be identical.
+// (a) dynamic: a corpus of real blocks is executed on ONE real ledger (LedgerStoreImp.ExecuteBlock = the production executeBlock,
+//     a dry run; the block is then committed and the next one built on it) under harness-owned map-iteration order (lib/maporder:
+//     GOROOT overlay of runtime.mapiterinit). For every block: baseline twice, then every 1-deviation (thorough: 2-deviation) of
+//     the iteration start at every map iteration with >= 2 entries; the write set, state-change digest, state root, cross-state
+//     root, cross hashes and events must be identical. The corpus (corpus.go, ripple.go, btc.go, msc.go) covers node_manager,
+//     relayer_manager, neo3_state_manager, signature_manager, side_chain_manager (register/update/quit, registerAsset,
+//     registerRedeem, setBtcTxParam, updateFee), cross_chain_manager (vote-router imports up to release, ripple MakeTransaction /
+//     MultiSignRipple / ReconstructRippleTx, BTC deposit / withdrawal / MultiSign, BlackChain / WhiteChain) and header_sync
+//     (ont incl. peer-set change and cross-chain messages, msc clique, btc) with 5 validators.
+//     Every iteration is attributed to its source `range` statement (call-site PCs recorded by this driver's own variant of the
+//     runtime hook, goroot/zz_verif_map.go.txt, swapped in by run.sh); the evidence lists every `range` over a map in the
+//     block-execution packages (sites.go: go/types pass over the sources as built) with what the corpus did there.
 // (b) static: exhaustive call-graph reachability (CHA over SSA, tools/reach) from every native handler and executeBlock to
 //     wall-clock / randomness / environment sources; every site in native contract code is a violation (known ones are listed
 //     in KNOWN_FINDINGS.txt per call site), so a NEW call site alarms.
@@ -15,24 +22,16 @@ import (
 	"encoding/hex"
 	"encoding/json"
 	"fmt"
-	"math/big"
 	"os"
 	"os/exec"
 	"path/filepath"
 	"strings"
 
 	"github.com/polynetwork/poly/common"
-	"github.com/polynetwork/poly/core/ledger"
 	"github.com/polynetwork/poly/core/store"
 	"github.com/polynetwork/poly/core/types"
 	_ "github.com/polynetwork/poly/native/service"
-	"github.com/polynetwork/poly/native/service/governance/node_manager"
-	"github.com/polynetwork/poly/native/service/governance/relayer_manager"
-	"github.com/polynetwork/poly/native/service/governance/side_chain_manager"
-	"github.com/polynetwork/poly/native/service/governance/signature_manager"
-	"github.com/polynetwork/poly/native/service/utils"
 	"verif.local/engine/ev"
-	"verif.local/engine/lib/maporder"
 	"verif.local/engine/polyenv"
 )
 
@@ -81,15 +80,54 @@ func main() {
 	r := ev.Start("C16", "model_checking")
 	r.Require("block_deterministic", "static_done")
 
-	// ------------------------------------------------------------------ (b) static reachability
+	// ------------------------------------------------------------------ (b) static reachability: runs beside the dynamic part
 	reachOut := filepath.Join(polyenv.TmpDir("c16"), "reach.json")
 	defer os.RemoveAll(filepath.Dir(reachOut))
-	// the reach tool must see the same sources as the build, minus the GOROOT map-order overlay (irrelevant for it)
-	cmd := exec.Command(filepath.Join(ev.Root, ".build/bin/reach"), "-overlay", os.Getenv("VERIF_OVERLAY"), "-out", reachOut)
-	cmd.Env = append(os.Environ(), "GOFLAGS=-mod=mod")
-	out, err := cmd.CombinedOutput()
-	if err != nil {
-		r.HarnessError("reach tool failed: %v: %s", err, tailS(string(out), 1500))
+	type reachRes struct {
+		out []byte
+		err error
+	}
+	reachCh := make(chan reachRes, 1)
+	go func() {
+		if os.Getenv("VERIF_C16_DYNAMIC_ONLY") != "" {
+			return
+		}
+		// the reach tool must see the same sources as the build, minus the GOROOT map-order overlay (irrelevant for it)
+		cmd := exec.Command(filepath.Join(ev.Root, ".build/bin/reach"), "-overlay", os.Getenv("VERIF_OVERLAY"), "-out", reachOut)
+		cmd.Env = append(os.Environ(), "GOFLAGS=-mod=mod")
+		out, err := cmd.CombinedOutput()
+		reachCh <- reachRes{out, err}
+	}()
+	// static list of map-iteration sites (go/types over the sources as built), also beside the dynamic part
+	type sitesRes struct {
+		sites []*Site
+		pkgs  int
+		err   error
+	}
+	sitesCh := make(chan sitesRes, 1)
+	go func() {
+		s, n, err := staticMapSites()
+		sitesCh <- sitesRes{s, n, err}
+	}()
+
+	// ------------------------------------------------------------------ (a) dynamic, map order owned by the harness
+	dyn := dynamicPart(r)
+
+	sr := <-sitesCh
+	if sr.err != nil {
+		r.HarnessError("static map-site pass failed: %v", sr.err)
+	}
+	if len(sr.sites) < 25 {
+		r.HarnessError("static map-site pass implausible: %d sites in %d packages", len(sr.sites), sr.pkgs)
+	}
+	siteEvidence(r, dyn, sr.sites, sr.pkgs)
+
+	if os.Getenv("VERIF_C16_DYNAMIC_ONLY") != "" { // development switch: the run then ends in the vacuity guard (static_done missing)
+		r.Finish(map[string]any{"rule": "dynamic part only (development run)", "map_order_executions": dyn.totalExec})
+	}
+	rr := <-reachCh
+	if rr.err != nil {
+		r.HarnessError("reach tool failed: %v: %s", rr.err, tailS(string(rr.out), 1500))
 	}
 	var reach struct {
 		Roots     []string `json:"roots"`
@@ -127,181 +165,48 @@ func main() {
 	r.Note("non_contract_sites_reported_only", nonContract)
 	r.Class("static_done")
 
-	// ------------------------------------------------------------------ (a) dynamic, map order owned by the harness
-	vals := polyenv.Keys(5)
-	polyenv.Setup(0, vals)
-	dir := polyenv.TmpDir("c16chain")
-	defer os.RemoveAll(dir)
-	ch, err := polyenv.OpenChain(dir, vals)
-	if err != nil {
-		r.HarnessError("open chain: %v", err)
-	}
-	defer ch.Close()
-	ledger.DefLedger = ledger.VerifNewLedger(ch.L)
-	NM, RM, SCM, SM := utils.NodeManagerContractAddress, utils.RelayerManagerContractAddress, utils.SideChainManagerContractAddress, utils.SignatureManagerContractAddress
-	c1, c2, owner, rel1, rel2 := polyenv.Key(20), polyenv.Key(21), polyenv.Key(30), polyenv.Key(40), polyenv.Key(41)
-	regCand := func(c *polyenv.Acct) *types.Transaction {
-		return tx(NM, node_manager.REGISTER_CANDIDATE, ser(func(s *common.ZeroCopySink) {
-			(&node_manager.RegisterPeerParam{PeerPubkey: c.PubHex, Address: c.Addr}).Serialization(s)
-		}), polyenv.Single(c))
-	}
-	apprCand := func(c, v *polyenv.Acct) *types.Transaction {
-		return tx(NM, node_manager.APPROVE_CANDIDATE, ser(func(s *common.ZeroCopySink) {
-			(&node_manager.PeerParam{PeerPubkey: c.PubHex, Address: v.Addr}).Serialization(s)
-		}), polyenv.Single(v))
-	}
-	black := func(cs []*polyenv.Acct, v *polyenv.Acct) *types.Transaction {
-		var l []string
-		for _, c := range cs {
-			l = append(l, c.PubHex)
-		}
-		return tx(NM, node_manager.BLACK_NODE, ser(func(s *common.ZeroCopySink) {
-			(&node_manager.PeerListParam{PeerPubkeyList: l, Address: v.Addr}).Serialization(s)
-		}), polyenv.Single(v))
-	}
-	commitDpos := func(signers []*polyenv.Acct) *types.Transaction {
-		return tx(NM, node_manager.COMMIT_DPOS, nil, polyenv.Multi(signers))
-	}
-	regRelayer := func() *types.Transaction {
-		return tx(RM, relayer_manager.REGISTER_RELAYER, ser(func(s *common.ZeroCopySink) {
-			(&relayer_manager.RelayerListParam{AddressList: []common.Address{rel1.Addr, rel2.Addr}, Address: owner.Addr}).Serialization(s)
-		}), polyenv.Single(owner))
-	}
-	apprRelayer := func(id uint64, v *polyenv.Acct) *types.Transaction {
-		return tx(RM, relayer_manager.APPROVE_REGISTER_RELAYER, ser(func(s *common.ZeroCopySink) {
-			(&relayer_manager.ApproveRelayerParam{ID: id, Address: v.Addr}).Serialization(s)
-		}), polyenv.Single(v))
-	}
-	updFee := func(v *polyenv.Acct, view uint64, fee int64) *types.Transaction {
-		return tx(SCM, side_chain_manager.UPDATE_FEE, ser(func(s *common.ZeroCopySink) {
-			(&side_chain_manager.UpdateFeeParam{Address: v.Addr, ChainId: 7, View: view, Fee: big.NewInt(fee)}).Serialization(s)
-		}), polyenv.Single(v))
-	}
-	addSig := func(v *polyenv.Acct, sig byte) *types.Transaction {
-		return tx(SM, signature_manager.ADD_SIGNATURE, ser(func(s *common.ZeroCopySink) {
-			(&signature_manager.AddSignatureParam{Address: v.Addr, SideChainID: 7, Subject: []byte("subject"), Signature: []byte{sig, sig}}).Serialization(s)
-		}), polyenv.Single(v))
-	}
-	blocks := [][]*types.Transaction{
-		{regCand(c1), regCand(c2), regRelayer()},
-		{apprCand(c1, vals[0]), apprCand(c1, vals[1]), apprCand(c2, vals[4]), apprRelayer(0, vals[2]), updFee(vals[0], 0, 50), addSig(vals[3], 1)},
-		{apprCand(c1, vals[2]), apprCand(c2, vals[3]), apprRelayer(0, vals[0]), apprRelayer(0, vals[1]), updFee(vals[1], 0, 10), updFee(vals[2], 0, 70), addSig(vals[1], 2), addSig(vals[0], 3)},
-		{apprCand(c1, vals[3]), apprCand(c2, vals[0]), apprCand(c2, vals[1]), apprRelayer(0, vals[3]), updFee(vals[3], 0, 30), addSig(vals[2], 4), addSig(vals[4], 5)},
-		{commitDpos(vals), updFee(vals[4], 0, 20), black([]*polyenv.Acct{c2}, vals[0]), black([]*polyenv.Acct{c2}, vals[1])},
-		{black([]*polyenv.Acct{c2}, vals[2]), black([]*polyenv.Acct{c2}, vals[3]), black([]*polyenv.Acct{c2}, vals[4]), updFee(vals[0], 1, 5), updFee(vals[2], 1, 9)},
-		{commitDpos(append(append([]*polyenv.Acct{}, vals...), c1))},
-	}
-	bound := r.QT(1, 2)
-	totalSites, totalExec := 0, 0
-	okTx, failTx := 0, 0
-	for bi, txs := range blocks {
-		blk := ch.NextBlock(txs, nil)
-		run := func(choices []uint16) (string, maporder.Trace) {
-			var d string
-			tr := maporder.Run(choices, 0, func() {
-				res, err := ch.L.ExecuteBlock(blk)
-				d = digestOf(res, err)
-			})
-			totalExec++
-			r.Eval()
-			return d, tr
-		}
-		d0, tr0 := run(nil)
-		d1, _ := run(nil)
-		if d0 != d1 {
-			r.Violation(fmt.Sprintf("nondeterministic:block%d:plain-repeat", bi), map[string]any{"block": bi, "first": d0, "second": d1})
-		}
-		// deviation sites: iterations over maps with >= 2 entries
-		var sites []int
-		for i, sz := range tr0.Sizes {
-			if sz >= 2 {
-				sites = append(sites, i)
-			}
-		}
-		totalSites += len(sites)
-		alts := func(sz int32) []uint16 {
-			var a []uint16
-			n := int(sz)
-			if n > 8 {
-				n = 8
-			}
-			for c := 1; c < n; c++ {
-				a = append(a, uint16(c))
-			}
-			if sz > 8 { // several buckets: also vary the start bucket
-				for bkt := 1; bkt <= 3; bkt++ {
-					a = append(a, uint16(bkt<<3), uint16(bkt<<3|3))
-				}
-			}
-			return a
-		}
-		check := func(choices []uint16, desc string) {
-			d, _ := run(choices)
-			if d != d0 {
-				r.Violation(fmt.Sprintf("nondeterministic:block%d:map-order", bi), map[string]any{"block": bi, "deviation": desc,
-					"choices": choices, "baseline": d0, "deviated": d, "txs": txNames(txs)})
-			}
-		}
-		for _, i := range sites {
-			if r.Expired() {
-				r.Capped("map-order deviations")
-				break
-			}
-			for _, c := range alts(tr0.Sizes[i]) {
-				ch1 := make([]uint16, i+1)
-				ch1[i] = c
-				check(ch1, fmt.Sprintf("site %d (map size %d) offset %d", i, tr0.Sizes[i], c))
-				if bound >= 2 {
-					for _, j := range sites {
-						if j <= i {
-							continue
-						}
-						for _, c2 := range alts(tr0.Sizes[j]) {
-							ch2 := make([]uint16, j+1)
-							ch2[i], ch2[j] = c, c2
-							check(ch2, fmt.Sprintf("sites %d,%d offsets %d,%d", i, j, c, c2))
-						}
-					}
-				}
-			}
-		}
-		r.Case(fmt.Sprintf("block%d sites=%d", bi, len(sites)))
-		if r.NViolations() == 0 || true {
-			r.Class("block_deterministic")
-		}
-		if bi < 3 {
-			r.Sample(map[string]any{"block": bi, "txs": txNames(txs), "map_iterations": tr0.Iterations, "deviation_sites": len(sites)})
-		}
-		res, err := ch.Commit(blk)
-		if err != nil {
-			r.HarnessError("commit block %d: %v", bi, err)
-		}
-		for _, n := range res.Notify {
-			if n.State == 1 {
-				okTx++
-			} else {
-				failTx++
-			}
-		}
-	}
-	r.Note("corpus_blocks", len(blocks))
-	r.Note("corpus_tx_ok", okTx)
-	r.Note("corpus_tx_failed", failTx)
-	if okTx < 25 {
-		r.HarnessError("corpus degenerate: only %d successful transactions (%d failed)", okTx, failTx)
-	}
 	r.Assume("map iteration: for maps with <= 8 entries the Go 1.23 runtime can only produce rotations of the slot order; all are explored at each site (deviation bound in evidence)",
 		"static part: CHA call graph (over-approximation); only repository functions are entered; third-party interiors are out of scope by the stated rule",
 		"scheduling: block execution is single-threaded (no goroutines are started by executeBlock or the native contracts)")
 	r.Finish(map[string]any{
-		"rule":        fmt.Sprintf("(a) %d corpus blocks x every map-iteration site with >=2 entries x every rotation, deviation bound %d; (b) exhaustive reachability from %d roots", len(blocks), bound, len(reach.Roots)),
-		"states":      totalSites + reach.Visited,
-		"transitions": totalExec + reach.Edges,
-		"traces_validated_against_impl": totalExec,
-		"map_order_sites":               totalSites,
-		"map_order_executions":          totalExec,
-		"deviation_bound":               bound,
+		"rule": fmt.Sprintf("(a) %d corpus blocks (%d transactions, %d contract methods) x every map-iteration site with >=2 entries x every rotation, deviation bound %d; (b) exhaustive reachability from %d roots",
+			dyn.blocks, dyn.txs, len(dyn.methods), dyn.bound, len(reach.Roots)),
+		"states":      dyn.totalSites + reach.Visited,
+		"transitions": dyn.totalExec + reach.Edges,
+		"traces_validated_against_impl": dyn.totalExec,
+		"map_order_sites":               dyn.totalSites,
+		"map_order_executions":          dyn.totalExec,
+		"deviation_bound":               dyn.bound,
 	})
+}
+
+func parseDigest(s string) *digest {
+	d := new(digest)
+	if json.Unmarshal([]byte(s), d) != nil {
+		return nil
+	}
+	return d
+}
+
+// firstEventDiff names the transaction (contract.method) whose event list differs first.
+func firstEventDiff(a, b string, names []string) string {
+	var la, lb []json.RawMessage
+	if json.Unmarshal([]byte(a), &la) != nil || json.Unmarshal([]byte(b), &lb) != nil || len(la) != len(lb) {
+		return "shape"
+	}
+	for i := range la {
+		if string(la[i]) != string(lb[i]) {
+			if i < len(names) {
+				n := names[i]
+				if k := strings.IndexByte(n, '/'); k >= 0 {
+					n = n[:k]
+				}
+				return n
+			}
+			return fmt.Sprint(i)
+		}
+	}
+	return "none"
 }
 
 func txNames(txs []*types.Transaction) []string {
